@@ -248,8 +248,15 @@ def run_populations(ctx):
                                                 {"op": "rmtree", "path": cache + "/tmp"},
                                                 {"op": "rmtree", "path": cache},
                                                 {"op": "rmtree", "path": cache + "/content-v2"}])]
+        if mode.startswith("async") and lens and rng.random() < 0.2:
+            # a write future dropped while pending (timeout / select!), the writer used further - also through write_all
+            req["cancel_before"] = [[rng.randrange(len(lens)), ctx.data(gen.data(rng, rng.choice([1, 100, 5000, 200000])))]
+                                    for _ in range(rng.choice([1, 2]))]
+            req["use_write_all"] = rng.random() < 0.7
+        if lens and rng.random() < 0.15:
+            req["vectored"] = True
         r = ctx.call(mode, req, timeout=30)
-        cls = ("before_commit" in req, "len0" if ln == 0 else "small" if ln <= MIB else "big",
+        cls = ("before_commit" in req, "cancel_before" in req, "vectored" in req, "len0" if ln == 0 else "small" if ln <= MIB else "big",
                "undeclared" if dsz is None else "exact" if dsz == ln else "less" if dsz < ln else "more" if dsz < 2 ** 31 - 1 else "astronomic",
                "chunks%d" % min(len(lens), 2), req["final"])
         judge(ctx, f"writer len={ln} declared={dsz} chunks={lens[:6]} final={req['final']}", mode, req, r, "writer-options")
